@@ -234,3 +234,119 @@ def rule_seed(ctx):
         res.violate(ikey, "fresh_name no longer tests (contains) and records (insert) the chosen name in the used set", fn.file, fn.line)
     res.require_floor(20)
     return res
+
+
+def rule_fvscope(ctx):
+    """R-FVSCOPE: free-variable collection before binders are unique must scope each binder to its own body"""
+    fx = ctx.fx
+    res = RuleResult("R-FVSCOPE", "typed_free_vars on unfocused Core (binders not yet unique: Fun allows shadowing and uniquify runs later) "
+                     "must remove a bound variable only from the set collected for the binder's own body; an impl that can be used "
+                     "at an unfocused type (its Self type names no Fs* body type) and removes from / retains on the caller's "
+                     "accumulator loses a free occurrence of an outer variable with the same name and type, so the lifted "
+                     "definition built from the set lacks a parameter. Focused impls (Self names FsStatement) may use the accumulator")
+    n = 0
+    for k, f in sorted(fx.fns.items()):
+        if not (f.get("impl_trait") or "").endswith("typed_free_vars::TypedFreeVars") or f["crate"] != "scc_core_lang" or "{" in k.split(" as ")[-1]:
+            continue
+        self_ty = k.split(" as ")[0].lstrip("<")
+        fn = Fn(f)
+        flow = Flow(fn)
+        rem = [(bi, t) for bi, t in fn.calls() if t.get("callee_name") in ("remove", "retain", "pop_first", "pop_last", "clear", "split_off", "take", "extract_if")
+               and (t.get("callee") or "").startswith(("alloc::collections::", "std::collections::"))]
+        if not rem:
+            continue
+        focused_only = "Fs" in self_ty.split("<", 1)[1] if "<" in self_ty else False
+        for bi, t in rem:
+            n += 1
+            r = op_root(t["args"][0])
+            org = flow.origins(r, ()) if r is not None else set()
+            on_acc = any(o[0] == "arg" and o[1] == 2 for o in org)
+            ikey = "%s@%s" % (self_ty, t.get("callee_name"))
+            if on_acc and not focused_only:
+                res.inst(ikey, t["sp"]["file"], t["sp"]["line"], "violation")
+                res.violate(ikey, "typed_free_vars of %s removes the binder from the caller's accumulator although the impl applies to unfocused "
+                            "terms, whose binders may shadow a variable that is free outside" % self_ty, t["sp"]["file"], t["sp"]["line"])
+            else:
+                res.inst(ikey, t["sp"]["file"], t["sp"]["line"], "ok", "focused only: binders unique" if on_acc else "removes from a set local to the binder's body")
+    res.require_floor(2)
+    return res
+
+
+def _field_source(fn, local, depth=0):
+    """trace a local backwards through single-definition copies / borrows to the place it was read from; returns the last
+    field projection {'n', 'of', ...} of that place, or None"""
+    if depth > 12:
+        return None
+    ds = fn.defs().get(local, [])
+    if len(ds) != 1:
+        return None
+    d = ds[0]
+    pl = None
+    if d["kind"] == "stmt" or "rv" in d:
+        rv = d.get("rv") or {}
+        if rv.get("k") in ("ref", "use", "rawptr", "cast"):
+            pl = rv.get("pl") or (rv.get("op") or {}).get("pl")
+    elif d["kind"] == "call":
+        t = d["term"]
+        if t.get("callee_name") in ("deref", "as_ref", "borrow", "as_str", "clone", "as_deref") and t["args"] and t["args"][0].get("pl"):
+            pl = t["args"][0]["pl"]
+    if not pl:
+        return None
+    fields = [x for x in pl["p"] if isinstance(x, dict) and "n" in x and x.get("of")]
+    if fields:
+        return fields[-1]
+    return _field_source(fn, pl["l"], depth + 1)
+
+
+def rule_binders(ctx):
+    """R-BINDERS: every source field the type checker treats as a binder is collected by used_binders"""
+    fx = ctx.fx
+    res = RuleResult("R-BINDERS", "sibling agreement between the type checker and the fresh-name seeding: every field of a Fun term that the "
+                     "checker adds to the typing context as a new (co)variable (add_var / add_covar / NameContext::add_types) is also "
+                     "inserted into the used-name set by that term's UsedBinders impl; a binder missing there can coincide with a "
+                     "generated name and capture it")
+    binders = {}
+    for k, f in sorted(fx.fns.items()):
+        if f["crate"] != "fun" or "{promoted" in k:
+            continue
+        fn = None
+        for bi, b in enumerate(f["blocks"]):
+            t = b["term"]
+            if t["k"] != "call" or t.get("callee_name") not in ("add_var", "add_covar", "add_types"):
+                continue
+            if not (t.get("callee_key") or "").startswith("fun::syntax::context::"):
+                continue
+            fn = fn or Fn(f)
+            ai = 0 if t["callee_name"] == "add_types" else 1
+            r = op_root(t["args"][ai]) if len(t["args"]) > ai else None
+            src = _field_source(fn, r) if r is not None else None
+            if src is None:
+                continue
+            adt = src["of"].rsplit("::", 1)[0]
+            binders.setdefault((adt, src["n"]), []).append((k, t["sp"]["file"], t["sp"]["line"], t["callee_name"]))
+    for (adt, field), sites in sorted(binders.items()):
+        key = "<%s as fun::traits::used_binders::UsedBinders>::used_binders" % adt
+        ikey = "%s.%s" % (adt, field)
+        f = fx.fns.get(key)
+        if f is None:
+            res.inst(ikey, sites[0][1], sites[0][2], "violation")
+            res.violate(ikey, "%s.%s is bound by %s (%s) but %s has no UsedBinders impl" % (adt, field, sites[0][3], sites[0][0], adt), sites[0][1], sites[0][2])
+            continue
+        fn = Fn(f)
+        flow = Flow(fn, extra_pass=lambda t: t.get("callee_name") in ("iter", "into_iter", "next", "cloned", "unwrap") and (t.get("callee") or "").startswith(("core::", "alloc::")))
+        found = False
+        for bi, t in fn.calls():
+            if t.get("callee_name") in ("insert", "extend") and (t.get("callee_self_adt") or "").endswith(("HashSet", "BTreeSet")) and len(t["args"]) > 1:
+                r = op_root(t["args"][1])
+                org = flow.origins(r, ()) if r is not None else set()
+                if any(o[0] == "arg" and o[1] == 1 and o[2][:1] == (field,) for o in org):
+                    found = True
+        if found:
+            res.inst(ikey, f["sp"]["file"], f["sp"]["line"], "ok", "bound at %s:%d (%s); inserted by used_binders" % (sites[0][1], sites[0][2], sites[0][3]))
+        else:
+            res.inst(ikey, f["sp"]["file"], f["sp"]["line"], "violation")
+            res.violate(ikey, "the type checker binds %s.%s (%s at %s:%d) but UsedBinders for %s does not insert it into the used-name set: "
+                        "a generated name can coincide with this binder" % (adt.split("::")[-1], field, sites[0][3], sites[0][1], sites[0][2], adt.split("::")[-1]),
+                        f["sp"]["file"], f["sp"]["line"])
+    res.require_floor(3)
+    return res
